@@ -760,12 +760,12 @@ func main() {
 	for _, bad := range [][2]int64{{0, 0}, {0, -4096}, {-4096, 4096}, {100, 4096}, {4096, 100}, {4095, 4097}, {0, 1}, {1 << 40, 4096}, {1<<40 + 4096*255, 8192}} {
 		planCase(bad[0], int(bad[1]), true)
 	}
-	for i := 0; i < c.N(150, 5000); i++ {
+	for i := 0; i < c.N(150, 2000); i++ {
 		planCase(int64(c.Rng.Intn(1<<22))*grid, (1+c.Rng.Intn(600))*grid, true)
 	}
 
 	// B: CTR
-	for i := 0; i < c.N(24, 400); i++ {
+	for i := 0; i < c.N(24, 120); i++ {
 		off := int64(c.Rng.Intn(1<<20)) * 16
 		if i%4 == 0 {
 			off = (int64(1)<<36 - int64(c.Rng.Intn(3))*16) // around the 2^32-block wrap of uint32(offset/16)
@@ -780,7 +780,7 @@ func main() {
 	}
 
 	// C: verifyChunk with tiny hash windows (the SHA-256 of the model runs in the Coq VM)
-	for i := 0; i < c.N(160, 4000); i++ {
+	for i := 0; i < c.N(160, 1500); i++ {
 		wl := int64(8 * (1 + c.Rng.Intn(4))) // window 8..32 bytes
 		nw := 1 + c.Rng.Intn(4)
 		tail := int64(1 + c.Rng.Intn(int(wl)))
@@ -830,7 +830,7 @@ func main() {
 
 	// F: verifier.verify (WithVerify(true)): genuine window, and corrupted / truncated / extended /
 	// over-long (more than hash.Limit) / reordered variants of it
-	for i := 0; i < c.N(120, 4000); i++ {
+	for i := 0; i < c.N(120, 1500); i++ {
 		c.Obs.Evaluations++
 		limit := 4 * (1 + c.Rng.Intn(10))
 		n := limit
@@ -873,7 +873,7 @@ func main() {
 	}
 
 	// E: verifier queue
-	for i := 0; i < c.N(200, 5000); i++ {
+	for i := 0; i < c.N(200, 2000); i++ {
 		queueCase(c.Rng.Range(0, 12), c.Rng.Range(0, 4), c.Rng.Range(1, 5), c.Rng.Intn(2), c.Rng.Chance(1, 3))
 	}
 
